@@ -111,7 +111,7 @@ def gen_signature(rng):
     return rbytes(rng, 64)
 
 
-ENTRYPOINTS = ['', '', '', 'a', 'do', 'default_', 'Default', 'transfer', 'x' * 31, 'set_delegate', 'root', 'A_b.c%d'[:5]]
+ENTRYPOINTS = ['', '', '', 'a', 'do', 'default_', 'Default', 'transfer', 'x' * 31, 'set_delegate', 'root', 'A_b.c%d'[:5], 'set_default', 'defaultdefault', 'xdefault']
 
 
 def gen_addr22(rng, kinds=(0, 1, 3)):
